@@ -9,7 +9,7 @@ CLAIMED = {
           "Trusted: the simulator's model (small, behavioural), Linux epoll/eventfd, polling. Slot reuse beyond 65535 generations is outside the property and not explored.", "3/C01"),
   "C02": ("dsim", "deterministic simulation: MUST-set oracle computed at the instant the batch is collected, poll(2) ground truth", "exploration",
           "At the end of every wait the model computes the set of inserted+enabled sources with a pending cause (poll(2) ground truth for fds, model for pings/channels/timers); after every Ok dispatch that set must be covered by invoked callbacks or by sources a previous callback of the same dispatch removed/disabled/re-registered. Level/OneShot/Edge contracts are modelled separately.",
-          "Edge-triggered obligations only after a clean transition in a requested direction; at most 64 simultaneously ready sources.", "3/C02"),
+          "Edge-triggered obligations only after a clean transition in a requested direction; up to 200 simultaneously ready sources (below the poller's batch size of 1024, as the property's quantifier says).", "3/C02"),
   "C05": ("dsim", "deterministic simulation with virtual discrete-event clock, timer reference model", "exploration",
           "All clock reads of calloop go through the virtual clock, so every history of arm/re-arm/cancel/fire is explored with exact times: at each timer callback now >= deadline, event == deadline, one firing per arming, non-decreasing deadlines per dispatch; every expired arming is in the MUST set of the first dispatch that polls at or after it; heap residue is bounded.",
           "Kernel timer accuracy is out of scope (virtual time).", "3/C05"),
@@ -75,7 +75,7 @@ CLAIMED.update({
 CLAIMED.update({
   "C19": ("dsim", "deterministic simulation in a strictly single-threaded worker process: Signals source under add/remove/set/drop histories with raise() at every point, mask and disposition oracles", "exploration",
           "Counting handlers are installed for the universe {USR1, USR2, WINCH, URG} so that normal disposition is observable and never fatal; histories of Signals::new/add_signals/remove_signals/set_signals/disable/enable/remove/drop interleaved with raise() (configured or not, before or after a mask change) and dispatches; after every operation: pthread_sigmask(query) restricted to the universe equals the configured set (empty after drop), the handler counters equal what the model expects (a signal that stays configured across a change must never reach the handler, an unconfigured or de-configured one reaches it exactly once), every pending configured signal is in the MUST set and reaches the callback exactly once with the right number, pid and uid.",
-          "Standard signals coalesce (one pending instance per signal). One Signals source at a time. Real-time signals and multi-threaded masks are not explored.", "3/C19"),
+          "Standard signals coalesce: at most two instances of a signal are pending at once (one thread-directed, one process-directed), universe of 10 signals (2, 4 or 10 per run). One Signals source at a time. Real-time signals and multi-threaded masks are not explored.", "3/C19"),
 })
 
 NOT_APPLICABLE = {
